@@ -2,6 +2,7 @@
 // Environment / argv source simulation: option texts are served from exact-size heap copies
 // (so ASan sees any read past the terminating NUL); histories of assignments over the three
 // sources are compared with a reference map.
+#include <algorithm>
 #include <climits>
 #include <cmath>
 #include <cstring>
@@ -9,6 +10,7 @@
 #include <map>
 
 #include "mp/backend-base.h"
+#include "mp/solver-app-base.h"
 
 #include "harness.h"
 #include "scen.h"
@@ -174,6 +176,8 @@ sim::Json generate(const std::string& tier, uint64_t seed, uint64_t index) {
   sc.set("exe", exe);
   sc.set("continue_on_error", rng.chance(0.5));
   sc.set("echo", rng.chance(0.3));
+  // the command line as the application sees it: [switches] [--] stub [-AMPL] assignments... - the switch parser hands the rest to the option parser
+  if (rng.chance(0.2)) { static const char* fr[] = {"", "--", "-e", "-e --", "-s", "-s --"}; sc.set("app_front", fr[rng.below(6)]); sc.set("app_ampl", rng.chance(0.7)); }
   auto make_source = [&](bool cmdline) {
     sim::Json a = sim::Json::array();
     int n = (int)rng.below(6);
@@ -337,6 +341,7 @@ sim::RunResult run(const sim::Json& sc) {
   char* exe_c = (char*)malloc(exe.size() + 1); memcpy(exe_c, exe.c_str(), exe.size() + 1);
   char* init_argv[] = {exe_c, nullptr};
   State got; bool ok = true; std::string thrown; RecErr rec; bool other_exc = false, std_exc = false;
+  std::string app_stub; long app_rest = -1;
   sim::capture_begin();
   g.begin();
   {
@@ -346,6 +351,22 @@ sim::RunResult run(const sim::Json& sc) {
       be->GetCallbacks() = mp::BasicBackend::Callbacks();   // RunBackendApp does the same (the member has no initialiser)
       be->Init(init_argv);
       if (cont) be->set_error_handler(&rec);
+      if (sc.has("app_front")) {
+        // as BackendApp::Init does: the switch parser takes the switches, the stub and -AMPL, the option parser gets what follows
+        std::vector<std::string> full_s; full_s.push_back(exe);
+        { std::string fr = sc["app_front"].as_str(); size_t p0 = 0; while (p0 < fr.size()) { size_t q = fr.find(' ', p0); if (q == std::string::npos) q = fr.size(); if (q > p0) full_s.push_back(fr.substr(p0, q - p0)); p0 = q + 1; } }
+        full_s.push_back("mystub");
+        if (sc["app_ampl"].as_bool()) full_s.push_back("-AMPL");
+        std::vector<char*> full; for (auto& q : full_s) full.push_back((char*)q.c_str());
+        for (size_t q = 0; q + 1 < argv.size(); ++q) full.push_back(argv[q]);
+        full.push_back(nullptr);
+        mp::internal::SolverAppOptionParser parser(*be);
+        char** av = full.data();
+        const char* stub = parser.Parse(av);
+        app_stub = stub ? stub : "(null)";
+        app_rest = av - full.data();
+        ok = be->ParseSolverOptions(av, sc["echo"].as_bool() ? 0 : mp::BasicSolver::NO_OPTION_ECHO);
+      } else
       ok = be->ParseSolverOptions(argv.data(), sc["echo"].as_bool() ? 0 : mp::BasicSolver::NO_OPTION_ECHO);
     } catch (const mp::Error& e) { thrown = e.what(); ok = false; }
     catch (const std::exception& e) { thrown = std::string("std: ") + e.what(); ok = false; std_exc = true; }   // e.g. logic_error for an empty name: a reported error
@@ -368,6 +389,13 @@ sim::RunResult run(const sim::Json& sc) {
   std::string viol, key, detail;
   auto flag = [&](const std::string& v, const std::string& k, const std::string& d) { if (viol.empty()) { viol = v; key = k; detail = d; } };
   if (other_exc) flag("UNEXPECTED_EXCEPTION", "parse", thrown);
+  if (sc.has("app_front") && thrown.empty()) {
+    std::string fr = sc["app_front"].as_str();
+    long nfront = fr.empty() ? 0 : 1 + (long)std::count(fr.begin(), fr.end(), ' ');
+    long want_rest = 1 + nfront + 1 + (sc["app_ampl"].as_bool() ? 1 : 0);
+    if (app_stub != "mystub" || app_rest != want_rest)
+      flag("WRONG_COMMAND_LINE_SPLIT", fr.empty() ? "plain" : fr, "command line '" + fr + " mystub" + (sc["app_ampl"].as_bool() ? " -AMPL" : "") + " ...': the switch parser took '" + app_stub + "' for the stub and left the option parser to start at argument " + std::to_string(app_rest) + " (expected " + std::to_string(want_rest) + ")");
+  }
   if (std_exc && !totality) flag("UNEXPECTED_EXCEPTION", "std", "well-formed / documented-error input made the parser throw a non-mp exception: " + thrown);
   if (!totality) {
     if (narrowed) {
@@ -396,6 +424,7 @@ sim::RunResult run(const sim::Json& sc) {
   r.stats = sim::Json::object();
   r.stats.set(totality ? "totality_runs" : "faithful_runs", 1);
   if (!ok) r.stats.set("parse_reported_error", 1);
+  if (sc.has("app_front")) r.stats.set("app_front_runs", 1);
   if (exe_specific) r.stats.set("exe_specific_source_used", 1);
   if (narrowed) r.stats.set("narrow_probes", 1);
   if (file_tokens) r.stats.set("option_file_used", 1);
